@@ -440,6 +440,44 @@ class Fn:
         self._defs = D
         return D
 
+    def uses(self):
+        """local -> list of use sites: ('stmt', bb, idx, stmt) / ('term', bb, term); a use is any
+        operand or place mention on the right-hand side / in a terminator (not pure destinations)"""
+        if hasattr(self, "_uses"):
+            return self._uses
+        U = collections.defaultdict(list)
+        live = self.live_blocks()
+        for bb in sorted(live):
+            for i, s in enumerate(self.stmts(bb)):
+                if s["s"] != "assign":
+                    continue
+                for p, kind in rvalue_places(s["rhs"]):
+                    U[p["l"]].append(("stmt", bb, i, s, kind))
+                if s["lhs"]["p"]:
+                    U[s["lhs"]["l"]].append(("stmt", bb, i, s, "partial-write"))
+            t = self.term(bb)
+            if t["t"] == "call":
+                for ai, a in enumerate(t["args"]):
+                    p = op_place(a)
+                    if p:
+                        U[p["l"]].append(("term", bb, t, ai, a["k"]))
+                if t.get("fnop"):
+                    p = op_place(t["fnop"])
+                    if p:
+                        U[p["l"]].append(("term", bb, t, -1, "callee"))
+            elif t["t"] == "switch":
+                p = op_place(t["discr"])
+                if p:
+                    U[p["l"]].append(("term", bb, t, 0, "switch"))
+            elif t["t"] == "drop":
+                U[t["pl"]["l"]].append(("term", bb, t, 0, "drop"))
+            elif t["t"] == "assert":
+                p = op_place(t["cond"])
+                if p:
+                    U[p["l"]].append(("term", bb, t, 0, "assert"))
+        self._uses = U
+        return U
+
     def single_def(self, l):
         ds = [d for d in self.defs().get(l, []) if d[0] in ("assign", "call", "arg")]
         live = self.live_blocks()
@@ -541,7 +579,20 @@ def call_is(t, *names):
 
 def call_matches(t, regex):
     r = re.compile(regex)
-    return bool((t.get("res") and r.search(t["res"])) or (t.get("callee") and r.search(t["callee"])))
+    return bool((t.get("res") and r.search(t["res"])) or (t.get("callee") and r.search(t["callee"]))
+                or (t.get("res_name") and r.search(t["res_name"])))
+
+
+def arg_consts(f, t):
+    """python constants behind the arguments of a call (None where not a literal); looks
+    through single-definition temporaries"""
+    out = []
+    for a in t["args"]:
+        o = f.origin(a)
+        while o[0] in ("ref", "deref"):
+            o = o[1]
+        out.append(o[1] if o[0] == "const" else None)
+    return out
 
 
 def origin_str(o, depth=0):
